@@ -3951,7 +3951,6 @@ class NetCDFRead(IORead):
                         coord = self.implementation.construct_insert_dimension(
                             construct=coord, position=0
                         )
-                        g["auxiliary_coordinate"][ncvar] = coord
                     else:
                         # Numeric valued scalar coordinate
                         is_scalar_dimension_coordinate = True
